@@ -49,6 +49,15 @@ struct Logical {
 	pub ts: i64,
 	#[avro_schema(logical_type = "date")]
 	pub day: i32,
+	#[avro_schema(logical_type = "time-millis")]
+	pub tod_ms: i32,
+	#[avro_schema(logical_type = "time-micros")]
+	pub tod_us: i64,
+	#[avro_schema(logical_type = "timestamp-micros")]
+	pub ts_us: i64,
+	// (declared with another Rust type: the macro makes the node the primitive the logical type annotates)
+	#[avro_schema(logical_type = "time-micros")]
+	pub tod_us_wrapped: std::time::Duration,
 	#[avro_schema(logical_type = "custom-thing")]
 	pub custom: Plain,
 	#[avro_schema(logical_type = "duration", has_same_type_as = "[u8; 12]")]
